@@ -700,6 +700,9 @@ fn nodes(r: &mut Rng, out: &mut Sink) {
     }
 }
 
+#[path = "pushchunk.rs"]
+pub mod pushchunk;
+
 pub fn run_nodes(seed: u64, cases: usize, out: &mut Sink) {
     let mut rng = Rng::new(seed ^ 0xB17E);
     for case in 0..cases {
